@@ -12,6 +12,7 @@ TECHNIQUE = (
     "supra, id(+2), id(-5), id(+500), filler} x cases (two colliding on reporter+volume) rendered to one running text, "
     "run through get_citations + resolve_citations and compared with the scenario's own reference model"
 )
+TECHNIQUE += "; " + 'also: every pin cite within the opinion for 12 first pages x 5 contexts, six value pools (sibling series, two-letter names, variation spellings with out-of-range years), line-per-sentence rendering; a subset again under python -O'
 RULE = (
     "scenario = word over events for n cases (references only after their full citation), all words of length <= L, "
     "rendered as sentences of one document (scenarios of <= 4 events also one sentence per line). distinct = distinct rendered text; non-trivial = scenario with >= 1 "
